@@ -372,6 +372,8 @@ def run(ctx, progs):
                 cret = cr[0] == 'field' and unref(cr[1])[:2] == ('param', 1)
             ok = shape and filled is not None and filled == returned and zero and cret
             d = f"shape [{shape}]; local filled by read_slice = _{filled}, local returned by the closure = _{returned}; initialised by T::zeroed() [{zero}]"
+        if not ok:
+            ok, d = _read_obj_by_outcomes(ctx, prog, eff, b)
         ctx.ob("R4.5.read_obj", b.key, ok, b.where(), "read_obj = read_slice(result.as_mut_slice(), addr).map(|_| result) with result = T::zeroed(): the SAME object is filled and returned; " + d)
         for nm, fn in (("as_slice", "from_raw_parts"), ("as_mut_slice", "from_raw_parts_mut")):
             b = prog.one(in_trait="bytes::ByteValued", name=nm)
@@ -386,6 +388,48 @@ def run(ctx, progs):
         "who-may-touch table over every body that accesses container memory (discovered by effect), and the object routes built on the slice routes over the same object. Necessary "
         "conditions for 'moves exactly the bytes it names' for all sizes/offsets/types; data values are not decided.",
         TRUSTED, "./check C04")
+
+
+def _read_obj_by_outcomes(ctx, prog, eff, b):
+    """the same rule for any spelling (`?` + Ok(result), match): the outcome table is {read_slice ok => Ok(<zeroed object>), read_slice failed =>
+    that failure}, and the MIR local whose as_mut_slice() is filled is the local moved into the Ok"""
+    from ..outcomes import outcomes, facts_of
+    from ..pat import ERRP
+    RS = C("Bytes::read_slice", P(1), C("ByteValued::as_mut_slice", ANY), P(2))
+    outs = outcomes(prog, eff, b)
+    n_ok = n_err = 0
+    for o in outs:
+        t = deep_strip(o[1])
+        fs = facts_of(b, o, (prog, eff))
+        if match(AGG("Result", "Ok", C("ByteValued::zeroed")), t, {}) and any(r[0] == 'discr' and r[2] == 0 and match(RS, r[1], {}) for r in fs):
+            n_ok += 1
+        elif match(ERRP(RS), t, {}) and any(r[0] == 'discr' and r[2] == 1 and match(RS, r[1], {}) for r in fs):
+            n_err += 1
+        else:
+            return False, f"unexpected outcome `{tstr(t)[:100]}`"
+    if not (n_ok == 1 and n_err == 1):
+        return False, f"outcomes ok={n_ok} err={n_err}"
+
+    def root_local(op):
+        """the local an operand names, through copies / moves / reborrows"""
+        for _ in range(6):
+            if op.get("k") not in ("move", "copy") or "p" in op["pl"] and any(not (isinstance(e, str) and e == "deref") for e in op["pl"]["p"]):
+                return None
+            l = op["pl"]["l"]
+            ds = b.defs(l)
+            if len(ds) == 1 and ds[0][1] == "rv" and ds[0][2]["k"] == "use":
+                op = ds[0][2]["op"]
+                continue
+            if len(ds) == 1 and ds[0][1] == "rv" and ds[0][2]["k"] == "ref" and "p" not in ds[0][2]["pl"]:
+                return ds[0][2]["pl"]["l"]
+            return l
+        return None
+    filled = [root_local(c.t["args"][0]) for c in b.calls() if canon(c.callee or "").endswith("ByteValued::as_mut_slice")]
+    returned = [root_local(s_["rv"]["ops"][0]) for _p, s_ in b.stmts()
+                if s_["k"] == "assign" and s_["rv"]["k"] == "agg" and s_["rv"].get("variant") == "Ok" and len(s_["rv"].get("ops", [])) == 1]
+    zero = len(filled) == 1 and filled[0] is not None and any(kind == "call" and canon(pl.get("callee") or "").endswith("ByteValued::zeroed") for _p, kind, pl in b.defs(filled[0]))
+    same = len(filled) == 1 and len(returned) == 1 and filled[0] is not None and filled[0] == returned[0]
+    return same and zero, f"outcome table ok; local filled = _{filled}, local returned in Ok = _{returned}; initialised by T::zeroed() [{zero}]"
 
 
 def self_len_of(x, guest, eff):
